@@ -1,4 +1,5 @@
 """rt.* correspondence suites and direct oracles for the Python JSON runtime (C04-C08, C10, C13)."""
+import copy
 import json
 import os
 
@@ -46,7 +47,7 @@ def same(real, model, conv=canon):
     return True
 
 
-HAND_SPECS = [['rt1.stone', 'rt2.stone'], ['rt3.stone'], ['rt4.stone'], ['rt5.stone']]
+HAND_SPECS = [['rt1.stone', 'rt2.stone'], ['rt3.stone'], ['rt4.stone'], ['rt5.stone'], ['rt6a.stone', 'rt6b.stone']]
 
 
 def hand_specs():
@@ -209,10 +210,17 @@ def oracle_roundtrip(ck, ses, case, doc, strict):
     both entry-point pairs."""
     label, ir, irt, validator, obj, stored = case
     for via_string in (False, True):
-        dec = outcome(lambda: _raw_decode(validator, doc, strict, via_string))
+        handed_in = tagged_to_json(doc)
+        pristine = copy.deepcopy(handed_in)
+        dec = outcome(lambda: _raw_decode(validator, doc, strict, via_string, handed_in))
         why = None
         if dec[0] != 'ok':
             why = 'decode of own encoding fails (%s)' % dec[0]
+        elif not via_string and canon_json(handed_in) != canon_json(pristine):
+            # "the JSON produced by encoding" must still be that JSON after it was decoded: a decoder that consumes
+            # parts of the object it is handed makes every later use of the encoding (a second decode, a comparison
+            # with a re-encoding) fail
+            why = 'decoding changes the JSON object handed in'
         else:
             back = dec[1]
             try:
@@ -235,9 +243,14 @@ def oracle_roundtrip(ck, ses, case, doc, strict):
         ck.stat('roundtrip_checked')
 
 
-def _raw_decode(validator, doc_tagged, strict, via_string):
+def canon_json(x):
+    return json.dumps(x, sort_keys=True, default=repr)
+
+
+def _raw_decode(validator, doc_tagged, strict, via_string, doc=None):
     from stone.backends.python_rsrc import stone_serializers as ss
-    doc = tagged_to_json(doc_tagged)
+    if doc is None:
+        doc = tagged_to_json(doc_tagged)
     if via_string:
         return ss.json_decode(validator, json.dumps(doc), strict=strict)
     return ss.json_compat_obj_decode(validator, doc, strict=strict)
@@ -981,6 +994,7 @@ def json_equiv(a, b):
 def suite_wire(ck, sessions, n_values, judge=True):
     for ses in sessions:
         cases = []
+        callers = declared_callers(ses.api)
         gen = values.ValueGen(ck.rng, ses.api, ses.ts, aware_ts=True)
         for label, ir in ses.types:
             validator = ses.validator(label, ir)
@@ -994,8 +1008,11 @@ def suite_wire(ck, sessions, n_values, judge=True):
                     continue
                 cases.append((label, ir, irt, validator, built[1], ses.codec.to_tagged(built[1])))
         ops = [{'op': 'rt.wire', 'ty': c[2], 'v': c[5]} for c in cases]
+        if callers:
+            ops += [{'op': 'rt.enc', 'ty': c[2], 'v': c[5], 'perms': callers, 'redact': False} for c in cases]
         reps = ses.run(ops, [c[5] for c in cases], extra_types=[c[2] for c in cases])
-        for c, rep in zip(cases, reps):
+        reps_p = reps[len(cases):] if callers else [None] * len(cases)
+        for c, rep, rep_p in zip(cases, reps, reps_p):
             label, ir, irt, validator, obj, stored = c
             real = ses.real_encode(validator, obj)
             ck.case(('wire', label, json.dumps(stored, sort_keys=True)), nontrivial=stored[0] in 'SUld')
@@ -1033,6 +1050,23 @@ def suite_wire(ck, sessions, n_values, judge=True):
                                      {'kind': 'wire', 'shape': stored[0], 'outcome': real[0]},
                                      {'specs': ses.specs, 'type': label, 'value': stored, 'real': list(real),
                                       'wire': rep['ok']})
+            # the same value encoded for a caller holding every declared permission: no member that is omitted for a
+            # caller class is set in it, so the documented wire form is the same one (an encoder that refuses because a
+            # required member of a caller class is unset is not judged here)
+            if callers and real[0] == 'ok':
+                real_p = ses.real_encode(validator, obj, perms=callers)
+                if real_p[0] != 'ok' and model_outcome(rep_p)[0] == real_p[0]:
+                    ck.stat('wire.with_all_permissions_refused')        # model and code refuse alike
+                elif real_p[0] == 'ok' and json_equiv(real_p[1], rep['ok']):
+                    ck.agree('rt.wire')
+                else:
+                    ck.disagree('rt.wire', {'type': label, 'value': stored, 'perms': callers}, list(real_p), rep['ok'])
+                    if judge:
+                        ck.failing_input('C05: the encoding for a caller holding every permission differs from the '
+                                         'documented wire format',
+                                         {'kind': 'wire', 'shape': stored[0], 'outcome': real_p[0], 'perms': 'all'},
+                                         {'specs': ses.specs, 'type': label, 'value': stored, 'perms': callers,
+                                          'real': list(real_p), 'wire': rep['ok']})
             if len(ck.samples) < 4 and stored[0] in 'SU':
                 ck.sample({'type': label, 'value': stored, 'wire': tagged_to_json(rep['ok'])})
 
